@@ -192,6 +192,197 @@ theorem rst_roundtrip (sid code : Nat) (rest : Bytes) (max : Nat) (hsid : 0 < si
     rw [if_neg (by omega), if_neg (by omega), hv]
   · unfold checkOrder; simp
 
+/-- any frame: write with `rawFrame` under any flags byte, read back (payload kept opaque) -/
+theorem flagged_roundtrip (ty flags sid : Nat) (pl rest : Bytes) (max : Nat) (f : Frame) (hs' : Nat) (ht : ty < 256)
+    (hf : flags < 256) (hsid : sid < 2147483648) (hl : pl.length ≤ max) (hl2 : pl.length < 16777216)
+    (hp : parsePayload ty flags sid pl = .ok f) (hc : checkOrder 0 ty flags sid = .ok hs') :
+    ∃ w, rawFrame ty flags sid pl = .ok w ∧ readFrame max 0 (w ++ rest) = (.ok f, hs', rest) := by
+  refine ⟨_, rawFrame_ok ty flags sid pl hl2, ?_⟩
+  rw [header_roundtrip ty flags sid pl rest _ max 0 ht hf hsid hl (rawFrame_ok ty flags sid pl hl2)]
+  unfold finishFrame
+  rw [hp, hc]
+
+/-- PING round trip, with and without ACK, any 8 bytes of opaque data -/
+theorem ping_roundtrip (ack : Bool) (data rest : Bytes) (max : Nat) (hd : data.length = 8) (hm : 8 ≤ max) :
+    ∃ w, writePing ack data = .ok w ∧
+      readFrame max 0 (w ++ rest) = (.ok (.ping (if ack then 1 else 0) data), 0, rest) := by
+  unfold writePing
+  apply flagged_roundtrip 6 _ 0 data rest max _ 0 (by omega) (by split <;> omega) (by omega) (by omega) (by omega)
+  · simp only [parsePayload]
+    unfold parsePing
+    rw [if_neg (by omega), if_neg (by simp)]
+  · unfold checkOrder; simp
+
+theorem prio_bytes (dep : Nat) (excl : Bool) (weight : Nat) (hd : dep < 2147483648) (hw : weight < 256) :
+    prioOf (be32 (dep + (if excl then 2147483648 else 0)) ++ [UInt8.ofNat weight]) = { dep := dep, excl := excl, weight := weight } := by
+  have hv : u32be (be32 (dep + (if excl then 2147483648 else 0)) ++ [UInt8.ofNat weight]) = dep + (if excl then 2147483648 else 0) :=
+    u32be_be32 _ (by split <;> omega) _
+  unfold prioOf
+  rw [hv]
+  have hw' : ((be32 (dep + (if excl then 2147483648 else 0)) ++ [UInt8.ofNat weight]).getD 4 0).toNat = weight := by
+    simp [be32, u8 weight hw]
+  rw [hw']
+  cases excl <;> simp <;> omega
+
+/-- PRIORITY round trip: every stream id, dependency below 2^31, exclusive bit, weight byte -/
+theorem priority_roundtrip (sid dep weight : Nat) (excl : Bool) (rest : Bytes) (max : Nat)
+    (hsid : 0 < sid ∧ sid < 2147483648) (hd : dep < 2147483648) (hw : weight < 256) (hm : 5 ≤ max) :
+    ∃ w, writePriority sid { dep := dep, excl := excl, weight := weight } = .ok w ∧
+      readFrame max 0 (w ++ rest) = (.ok (.priority sid 0 { dep := dep, excl := excl, weight := weight }), 0, rest) := by
+  have hvs : validStreamID sid = true := by simp [validStreamID]; omega
+  have hwq : writePriority sid { dep := dep, excl := excl, weight := weight } =
+      rawFrame 2 0 sid (be32 (dep + (if excl then 2147483648 else 0)) ++ [UInt8.ofNat weight]) := by
+    simp [writePriority, hvs]; omega
+  rw [hwq]
+  have hlen : (be32 (dep + (if excl then 2147483648 else 0)) ++ [UInt8.ofNat weight]).length = 5 := rfl
+  have hp := prio_bytes dep excl weight hd hw
+  generalize be32 (dep + (if excl then 2147483648 else 0)) ++ [UInt8.ofNat weight] = pl at hlen hp ⊢
+  apply flagged_roundtrip 2 0 sid pl rest max _ 0 (by omega) (by omega) hsid.2 (by omega) (by omega)
+  · simp only [parsePayload]
+    unfold parsePriority
+    rw [if_neg (by omega), if_neg (by omega), hp]
+  · unfold checkOrder; simp
+
+/-- GOAWAY round trip: last stream id below 2^31, any 32-bit code, any debug data -/
+theorem goaway_roundtrip (last code : Nat) (debug rest : Bytes) (max : Nat) (hl : last < 2147483648)
+    (hc : code < 4294967296) (hm : 8 + debug.length ≤ max) (hm2 : 8 + debug.length < 16777216) :
+    ∃ w, writeGoAway last code debug = .ok w ∧
+      readFrame max 0 (w ++ rest) = (.ok (.goaway 0 last code debug), 0, rest) := by
+  unfold writeGoAway
+  have hmod : last % 2147483648 = last := Nat.mod_eq_of_lt hl
+  rw [hmod]
+  have h1 : u32be (be32 last ++ be32 code ++ debug) = last := by
+    rw [List.append_assoc]; exact u32be_be32 last (by omega) _
+  have h2 : u32be ((be32 last ++ be32 code ++ debug).drop 4) = code := by
+    have : (be32 last ++ be32 code ++ debug).drop 4 = be32 code ++ debug := by simp [be32]
+    rw [this]; exact u32be_be32 code hc _
+  have h3 : (be32 last ++ be32 code ++ debug).drop 8 = debug := by simp [be32]
+  have hlen : (be32 last ++ be32 code ++ debug).length = 8 + debug.length := by simp [be32]; omega
+  generalize be32 last ++ be32 code ++ debug = pl at h1 h2 h3 hlen ⊢
+  apply flagged_roundtrip 7 0 0 pl rest max _ 0 (by omega) (by omega) (by omega) (by omega) (by omega)
+  · simp only [parsePayload]
+    unfold parseGoAway
+    rw [if_neg (by simp), if_neg (by omega), h1, hmod, h2, h3]
+  · unfold checkOrder; simp
+
+/-- DATA round trip without padding: the payload and END_STREAM come back unchanged -/
+theorem data_roundtrip (sid : Nat) (endStream : Bool) (data rest : Bytes) (max : Nat)
+    (hsid : 0 < sid ∧ sid < 2147483648) (hm : data.length ≤ max) (hm2 : data.length < 16777216) :
+    ∃ w, writeData sid endStream data none = .ok w ∧
+      readFrame max 0 (w ++ rest) = (.ok (.data sid (if endStream then 1 else 0) data), 0, rest) := by
+  have hvs : validStreamID sid = true := by simp [validStreamID]; omega
+  have hw : writeData sid endStream data none = rawFrame 0 (if endStream then 1 else 0) sid data := by
+    simp [writeData, hvs]
+  rw [hw]
+  apply flagged_roundtrip 0 _ sid data rest max _ 0 (by omega) (by split <;> omega) hsid.2 hm hm2
+  · simp only [parsePayload]
+    unfold parseData
+    have hnf : hasFlag (if endStream then 1 else 0) 8 = false := by cases endStream <;> rfl
+    rw [if_neg (by omega)]
+    simp only [hnf, padLenOf, afterPad, Bool.false_eq_true, false_and, if_false]
+    rw [if_neg (by omega)]
+    simp
+  · unfold checkOrder; simp
+
+/-- DATA round trip WITH padding: pad length 0..255, zero padding bytes; the reader strips the pad-length byte and the
+padding and returns exactly the data (flags = END_STREAM? + PADDED) -/
+theorem data_padded_roundtrip (sid : Nat) (endStream : Bool) (data rest : Bytes) (padLen max : Nat)
+    (hsid : 0 < sid ∧ sid < 2147483648) (hp : padLen ≤ 255) (hm : 1 + data.length + padLen ≤ max)
+    (hm2 : 1 + data.length + padLen < 16777216) :
+    ∃ w, writeData sid endStream data (some (List.replicate padLen 0)) = .ok w ∧
+      readFrame max 0 (w ++ rest) = (.ok (.data sid ((if endStream then 1 else 0) + 8) data), 0, rest) := by
+  have hvs : validStreamID sid = true := by simp [validStreamID]; omega
+  have hany : (List.replicate padLen (0 : UInt8)).any (· ≠ 0) = false := by
+    simp [List.any_eq_false]
+  have hw : writeData sid endStream data (some (List.replicate padLen 0)) =
+      rawFrame 0 ((if endStream then 1 else 0) + 8) sid ([UInt8.ofNat padLen] ++ data ++ List.replicate padLen 0) := by
+    simp only [writeData, hvs, Bool.not_true, Bool.false_eq_true, if_false, List.length_replicate]
+    rw [if_neg (by omega), hany]
+    simp
+  rw [hw]
+  have hlen : ([UInt8.ofNat padLen] ++ data ++ List.replicate padLen (0 : UInt8)).length = 1 + data.length + padLen := by
+    simp; omega
+  apply flagged_roundtrip 0 _ sid _ rest max _ 0 (by omega) (by split <;> omega) hsid.2 (by omega) (by omega)
+  · simp only [parsePayload]
+    unfold parseData
+    have hf : hasFlag ((if endStream then 1 else 0) + 8) 8 = true := by cases endStream <;> rfl
+    rw [if_neg (by omega)]
+    simp only [hf, padLenOf, afterPad, if_true]
+    have hne : ¬ (True ∧ [UInt8.ofNat padLen] ++ data ++ List.replicate padLen (0 : UInt8) = []) := by simp
+    rw [if_neg (by simp)]
+    have hhead : (([UInt8.ofNat padLen] ++ data ++ List.replicate padLen (0 : UInt8)).headD 0).toNat = padLen := by
+      simp [u8 padLen (by omega)]
+    have hdrop : ([UInt8.ofNat padLen] ++ data ++ List.replicate padLen (0 : UInt8)).drop 1 = data ++ List.replicate padLen 0 := by
+      simp
+    rw [hhead, hdrop]
+    rw [if_neg (by simp)]
+    simp
+  · unfold checkOrder; simp
+
+theorem settingsList_encode : ∀ (ss : List (Nat × Nat)), (∀ s ∈ ss, s.1 < 65536 ∧ s.2 < 4294967296) →
+    settingsList (ss.flatMap fun s => be16 s.1 ++ be32 s.2) = ss := by
+  intro ss
+  induction ss with
+  | nil => intro _; rfl
+  | cons s r ih =>
+    intro h
+    have hs := h s (by simp)
+    have hr := ih (fun x hx => h x (by simp [hx]))
+    simp only [List.flatMap_cons]
+    have e : be16 s.1 ++ be32 s.2 ++ (r.flatMap fun s => be16 s.1 ++ be32 s.2) =
+        UInt8.ofNat (s.1 / 256) :: UInt8.ofNat s.1 :: UInt8.ofNat (s.2 / 16777216) :: UInt8.ofNat (s.2 / 65536) ::
+        UInt8.ofNat (s.2 / 256) :: UInt8.ofNat s.2 :: (r.flatMap fun s => be16 s.1 ++ be32 s.2) := by
+      simp [be16, be32]
+    rw [e]
+    simp only [settingsList, hr]
+    have h1 : (UInt8.ofNat (s.1 / 256)).toNat * 256 + (UInt8.ofNat s.1).toNat = s.1 := by
+      simp only [UInt8.toNat_ofNat']; omega
+    have h2 : u32be [UInt8.ofNat (s.2 / 16777216), UInt8.ofNat (s.2 / 65536), UInt8.ofNat (s.2 / 256), UInt8.ofNat s.2] = s.2 := by
+      have := u32be_be32 s.2 hs.2 []
+      simpa [be32] using this
+    rw [h1, h2]
+
+/-- SETTINGS round trip: any list of (16-bit id, 32-bit value) pairs whose INITIAL_WINDOW_SIZE (if present first) is
+legal comes back as the same list in the same order -/
+theorem settings_roundtrip (ss : List (Nat × Nat)) (rest : Bytes) (max : Nat)
+    (hs : ∀ s ∈ ss, s.1 < 65536 ∧ s.2 < 4294967296) (hw : (settingValue ss 4).getD 0 ≤ 2147483647)
+    (hm : 6 * ss.length ≤ max) (hm2 : 6 * ss.length < 16777216) :
+    ∃ w, writeSettings ss = .ok w ∧ readFrame max 0 (w ++ rest) = (.ok (.settings 0 ss), 0, rest) := by
+  unfold writeSettings
+  have hlen : (ss.flatMap fun s => be16 s.1 ++ be32 s.2).length = 6 * ss.length := by
+    clear hs hw hm hm2
+    induction ss with
+    | nil => rfl
+    | cons s r ih => simp only [List.flatMap_cons, List.length_append, ih, List.length_cons]; simp [be16, be32]; omega
+  have hdec := settingsList_encode ss hs
+  generalize (ss.flatMap fun s => be16 s.1 ++ be32 s.2) = pl at hlen hdec ⊢
+  apply flagged_roundtrip 4 0 0 pl rest max _ 0 (by omega) (by omega) (by omega) (by omega) (by omega)
+  · simp only [parsePayload]
+    unfold parseSettings
+    have hnf : hasFlag 0 1 = false := rfl
+    rw [if_neg (by simp [hnf]), if_neg (by simp), if_neg (by omega), hdec, if_neg (by omega)]
+  · unfold checkOrder; simp
+
+/-- HEADERS round trip (no padding, no priority): the header block fragment and both flags come back; a frame
+without END_HEADERS leaves the reader expecting CONTINUATION on that stream -/
+theorem headers_roundtrip (sid : Nat) (endStream endHeaders : Bool) (frag rest : Bytes) (max : Nat)
+    (hsid : 0 < sid ∧ sid < 2147483648) (hm : frag.length ≤ max) (hm2 : frag.length < 16777216) :
+    ∃ w, writeHeaders sid frag endStream endHeaders 0 noPrio = .ok w ∧
+      readFrame max 0 (w ++ rest) =
+        (.ok (.headers sid ((if endStream then 1 else 0) + (if endHeaders then 4 else 0)) noPrio frag),
+         if endHeaders then 0 else sid, rest) := by
+  have hvs : validStreamID sid = true := by simp [validStreamID]; omega
+  have hw : writeHeaders sid frag endStream endHeaders 0 noPrio =
+      rawFrame 1 ((if endStream then 1 else 0) + (if endHeaders then 4 else 0)) sid frag := by
+    simp [writeHeaders, hvs, noPrio, prioIsZero]
+  rw [hw]
+  apply flagged_roundtrip 1 _ sid frag rest max _ _ (by omega) (by cases endStream <;> cases endHeaders <;> simp) hsid.2 hm hm2
+  · simp only [parsePayload]
+    unfold parseHeaders
+    cases endStream <;> cases endHeaders <;> simp [hasFlag, padLenOf, afterPad, noPrio] <;> omega
+  · unfold checkOrder
+    cases endStream <;> cases endHeaders <;> simp [hasFlag]
+
 /-- non-vacuity: a HEADERS frame with padding and priority written by the model is read back -/
 example : (match writeHeaders 5 [0x82, 0x84] true true 3 { dep := 7, excl := true, weight := 200 } with
     | .ok w => (match (readFrame 16384 0 w).1 with | .ok f => some f | .error _ => none) | .error _ => none) =
